@@ -80,6 +80,7 @@ MUTANTS = {
         ("patch:own-c19-simple-line-not-terminated",),
         ("patch:own-c19-average-over-flanks",),
         ("patch:own-c19-low-depth-guard-regions",),
+        ("patch:own-c19-zero-minimum-depth",),
         ("avg-depth-guard-removed", "aldy/genotype.py", "        if avg_cov < profile.min_avg_coverage:", "        if False:"),
         ("oserror-swallowed", "aldy/sam.py", "            for read in iter:\n                if not read.cigartuples:  # only valid alignments", "            for read in _safe(iter):\n                if not read.cigartuples:  # only valid alignments"),
     ],
